@@ -27,9 +27,9 @@ def run_check(pid, family, tags, rule, corrupt=None, findings=None, crash_owner=
         nconf = conf.check(pid)          # defaults the daemon is built with vs. Config.tla (the scenario runs set their own schedule)
         extra["configuration_differences"] = nconf
         nk = 0
-        if pid == "C07":                 # the real conversion kernel vs. Ledger.Convert on a grid of arguments, and the exhaustive kernel model
-            import convk
-            nk, kcov = convk.check(pid, tier)
+        if pid in ("C07", "C13"):        # the real conversion kernel vs. Ledger.Convert on a grid of arguments, and the exhaustive kernel model
+            import convk                 # (C13 owns only the refusal half: zero rate / unavailable average)
+            nk, kcov = convk.check(pid, tier, refusal_only=(pid == "C13"))
             extra["conversion_kernel"] = {k: kcov[k] for k in ("mc_configs", "kernel_calls_compared", "mismatches", "self_test")}
         rc = ledger.finish(pid, results, stats, tags, t0, mc=mcres, rule=rule,
                              samples=[ledger.sample_of(r) for r in results[:2]],
